@@ -375,7 +375,7 @@ def _contains(outer: ast.AST, inner: ast.AST) -> bool:
 
 
 # -------------------------------------------------------------- STALE-ALIAS
-@rule("STALE-ALIAS", ["C01", "C04"], floor=6, section="3.5")
+@rule("STALE-ALIAS", ["C01", "C04", "C10"], floor=6, section="3.5")
 def stale_alias(ctx: Ctx) -> List[Ob]:
     """a local alias of a child list is not used to change the list after a statement that may have replaced that list (`x._children = None` / `= [..]`): the change would go to a detached list"""
     from ..cfg import _binds
@@ -415,7 +415,7 @@ def stale_alias(ctx: Ctx) -> List[Ob]:
                         break
                 if bad:
                     break
-            props = ["C01", "C04"]
+            props = ["C01", "C04", "C10"]
             obs.append(ctx.ob("STALE-ALIAS", props, f, f"alias `{name}` of a child list in {f.qualname}", al[0].expr, bad is None,
                               "" if bad is None else f"`{name}` was taken at L{bad[0].lineno}, then `{norm(bad[1].ast)}` may replace that child list (None instead of []), "
                               f"and `{norm(bad[2].ast)}` still changes the old list object: the node ends up in a detached list (counted, not reachable)",
